@@ -1,6 +1,121 @@
-(* C08/Proofs.v — lemmas (work in progress) *)
-From Verif Require Import Common.Base C08.Model Generated.OtlpProto.
+(* C08/Proofs.v — umbrella: re-exports the lemma files and proves the instance obligations over
+   the schema that is regenerated from the current tree on every run (Generated/OtlpProto.v). *)
+From Verif Require Export Common.Base C08.Model C08.Proofs1 C08.Proofs2 C08.Proofs3 C08.Proofs4 C08.Proofs5 C08.Proofs6 C08.Proofs7 C08.Json C08.Proofs8 C08.Proofs9.
+From Verif Require Import Generated.OtlpProto Generated.C08JsonDecoders.
 Local Open Scope N_scope.
 
 Lemma otlp_schema_wf_l : wf_schema OtlpSchema = true.
 Proof. vm_compute. reflexivity. Qed.
+
+(* the export-request wrapper of a signal and the signal's XData message have the same field
+   list and default, hence the same codec *)
+Lemma same_layout_codec (S : schema) m1 m2 :
+  mfields (msg S m1) = mfields (msg S m2) -> mdefault (msg S m1) = mdefault (msg S m2) ->
+  forall v b, encode S m1 v = encode S m2 v /\ size S m1 v = size S m2 v /\ decode S m1 b = decode S m2 b.
+Proof.
+  intros Hf Hd v b. rewrite !proto_size_l.
+  assert (E : encode S m1 v = encode S m2 v).
+  { unfold encode. destruct v; try reflexivity. rewrite !enc_val_msg, Hf. reflexivity. }
+  split; [exact E|]. split; [rewrite E; reflexivity|].
+  unfold decode. rewrite Hf, Hd. reflexivity.
+Qed.
+
+Definition wrapper_pairs : list (nat * nat) :=
+  [ (m_collector_logs_v1_ExportLogsServiceRequest, m_logs_v1_LogsData);
+    (m_collector_metrics_v1_ExportMetricsServiceRequest, m_metrics_v1_MetricsData);
+    (m_collector_trace_v1_ExportTraceServiceRequest, m_trace_v1_TracesData);
+    (m_collector_profiles_v1development_ExportProfilesServiceRequest, m_profiles_v1development_ProfilesData) ].
+
+Definition fdesc_eqb (a b : fdesc) : bool :=
+  (fnum a =? fnum b)
+  && match fty a, fty b with
+     | TScalar k1, TScalar k2 => (wire_of k1 =? wire_of k2) && (N.of_nat 0 =? 0) && match k1, k2 with
+         | SU64, SU64 | SI64, SI64 | SU32, SU32 | SI32, SI32 | SEnum, SEnum | SBool, SBool | SZig32, SZig32
+         | SFix64, SFix64 | SSFix64, SSFix64 | SDouble, SDouble | SFix32, SFix32 => true | _, _ => false end
+     | TBytes, TBytes | TStr, TStr => true
+     | TId n1, TId n2 => n1 =? n2
+     | TMsg m1, TMsg m2 => (m1 =? m2)%nat
+     | _, _ => false
+     end
+  && match fcd a, fcd b with
+     | COpt, COpt | CRep, CRep | CPacked, CPacked => true
+     | COneof g1, COneof g2 => g1 =? g2
+     | _, _ => false
+     end.
+
+Lemma wrapper_layouts :
+  forallb (fun p => list_eqb fdesc_eqb (mfields (msg OtlpSchema (fst p))) (mfields (msg OtlpSchema (snd p)))
+                    && list_eqb pv_eqb (mdefault (msg OtlpSchema (fst p))) (mdefault (msg OtlpSchema (snd p))))
+          wrapper_pairs = true.
+Proof. vm_compute. reflexivity. Qed.
+
+Lemma wrappers_l : forall p, In p wrapper_pairs ->
+  forall v b, encode OtlpSchema (fst p) v = encode OtlpSchema (snd p) v
+              /\ size OtlpSchema (fst p) v = size OtlpSchema (snd p) v
+              /\ decode OtlpSchema (fst p) b = decode OtlpSchema (snd p) b.
+Proof.
+  intros p Hp. apply same_layout_codec;
+    repeat (destruct Hp as [<-|Hp]; [reflexivity|]); destruct Hp.
+Qed.
+
+(* the two recorded losses of the protobuf round trip, as witnesses on the real schema *)
+Definition negzero_witness : pv := VMsg [VInt two63; VInt 0].
+Definition emptybytes_witness : pv := VMsg [VNone; VNone; VNone; VNone; VNone; VNone; VSome VNone].
+
+Lemma proto_roundtrip_refuted_l :
+  exists m v, canonical OtlpSchema m (norm OtlpSchema m v) = true
+              /\ decode OtlpSchema m (encode OtlpSchema m v) <> Some v.
+Proof.
+  exists m_metrics_v1_SummaryDataPoint_ValueAtQuantile, negzero_witness.
+  split; [vm_compute; reflexivity|vm_compute; discriminate].
+Qed.
+
+Lemma proto_roundtrip_refuted_emptybytes_l :
+  canonical OtlpSchema m_common_v1_AnyValue (norm OtlpSchema m_common_v1_AnyValue emptybytes_witness) = true
+  /\ decode OtlpSchema m_common_v1_AnyValue (encode OtlpSchema m_common_v1_AnyValue emptybytes_witness)
+     = Some (VMsg [VNone; VNone; VNone; VNone; VNone; VNone; VNone]).
+Proof. split; vm_compute; reflexivity. Qed.
+
+(* ---- JSON instance obligations (decoder table regenerated from the running decoders) ---- *)
+(* the fields of the reachable messages that the decoder table does NOT cover, exactly: the two
+   recorded defects of pdata/pprofile/json.go.  Dropping (or breaking) any other decoder case
+   changes this list and this proof fails. *)
+Lemma otlp_json_uncovered_l :
+  uncovered OtlpSchema OtlpJsonDecoders OtlpJsonReachable
+  = [(m_profiles_v1development_Profile, 21); (m_profiles_v1development_ValueType, 3)].
+Proof. vm_compute. reflexivity. Qed.
+
+Lemma otlp_json_covers_refuted_l : covers OtlpSchema OtlpJsonDecoders OtlpJsonReachable = false.
+Proof. vm_compute. reflexivity. Qed.
+
+(* every 64-bit integer field of every reachable message is read by a dual (number | string) reader
+   under both spellings of its key; every enum field except the recorded one accepts number | name *)
+Definition dual64_ok : bool :=
+  forallb (fun m => forallb (fun d => match fty d with
+                                      | TScalar k => negb (is64 k) || (fnum d =? 1000) || fcovered OtlpJsonDecoders m d
+                                      | _ => true end) (mfields (msg OtlpSchema m))) OtlpJsonReachable.
+Definition enums_uncovered : list (nat * N) :=
+  flat_map (fun m => map (fun d => (m, fnum d))
+                         (filter (fun d => match fty d with TScalar SEnum => negb (fcovered OtlpJsonDecoders m d) | _ => false end)
+                                 (mfields (msg OtlpSchema m)))) OtlpJsonReachable.
+
+Lemma otlp_dual64_l : dual64_ok = true.
+Proof. vm_compute. reflexivity. Qed.
+Lemma otlp_enums_l : enums_uncovered = [(m_profiles_v1development_ValueType, 3)].
+Proof. vm_compute. reflexivity. Qed.
+
+Definition with_field (m : nat) (fn : N) (x : pv) : pv :=
+  match slot_index (mfields (msg OtlpSchema m)) fn with
+  | Some i => VMsg (upd i x (mdefault (msg OtlpSchema m)))
+  | None => VNone
+  end.
+
+Definition payload_witness : pv := with_field m_profiles_v1development_Profile 21 (VBytes [1; 2]).
+
+Lemma json_roundtrip_refuted_l :
+  exists m v, canonical OtlpSchema m v = true /\ migrate OtlpSchema m v = v
+              /\ of_json OtlpSchema OtlpJsonDecoders OtlpEnums m (to_json OtlpSchema m v) <> Some v.
+Proof.
+  exists m_profiles_v1development_Profile, payload_witness.
+  split; [vm_compute; reflexivity|]. split; [vm_compute; reflexivity|]. vm_compute. discriminate.
+Qed.
